@@ -5,11 +5,13 @@ package nsqd
 import (
 	"encoding/json"
 	"errors"
+	"io"
 	"net"
 	"net/http"
 	"strings"
 	"time"
 
+	"github.com/nsqio/go-nsq"
 	"github.com/nsqio/nsq/internal/clusterinfo"
 	"github.com/nsqio/nsq/internal/http_api"
 	"github.com/nsqio/nsq/internal/verifrt"
@@ -32,7 +34,28 @@ import (
 // Symbolically only the HTTP GET (http_api.Client.GETV1) is a stub giving the chosen answer -
 // the real GetLookupdTopicChannels runs above it; natively it is nsqd's real HTTP client
 // talking to a loopback HTTP server that gives the same answer.
+//
+// Two more dimensions (both straight from the statement):
+//   bystander  WHILE the query is outstanding the other client not only publishes but first
+//              creates a channel of its own ("own": a consumer's SUB or /channel/create racing
+//              the topic's creation). The lookupd is not instantaneous - natively its answer takes
+//              verifSlowLookup after the publish, symbolically nsqd's goroutines may run at the
+//              blocking points in between. "own" existed before the publish, the known channels
+//              are owed the very first message by the statement: all of them hold it afterwards.
+//   dropped    the TCP connection to the lookupd was lost and nsqd has noticed (a PING failed:
+//              the write was reset / the lookupd had hung up, so lookupPeer.Command closed the
+//              peer) but has not reconnected yet - the reconnect is lazy, it happens with the next
+//              command. The lookupd itself is up and still answers on its HTTP port: it is one of
+//              the topic's nsqlookupds and the channels it knows must be pre-created all the same.
+//
+// Native replay: the harness owns real goroutines (the loopback HTTP server) that the symbolic
+// schedule does not know - a baton-scheduled replay parks them for good and the query times out
+// (asked == 0) - so every replay of this harness lets the goroutines run freely (verifrt.FreeRun)
+// and the window "publish while the lookup is outstanding" is held open by the slow answer.
 // ---------------------------------------------------------------------------------------------
+
+// verifSlowLookup: how long the native lookupd takes to answer after the bystander has published.
+const verifSlowLookup = 40 * time.Millisecond
 
 type verifTopicQuery struct {
 	n        *NSQD
@@ -40,6 +63,7 @@ type verifTopicQuery struct {
 	fail     int      // 0 all answer, 1 all fail, 2 one of two fails (partial answer + error)
 	asked    int
 	firstMsg bool
+	own      bool // the bystander creates channel "own" before it publishes
 }
 
 var verifTQ *verifTopicQuery
@@ -51,6 +75,9 @@ func (q *verifTopicQuery) publishFirst(topic string) {
 	}
 	q.firstMsg = true
 	t := q.n.GetTopic(topic)
+	if q.own {
+		t.GetChannel("own") // a consumer's SUB / an operator's /channel/create
+	}
 	var id MessageID
 	copy(id[:], "0123456789abcdef")
 	t.PutMessage(NewMessage(id, []byte("first")))
@@ -80,6 +107,7 @@ func verifTopicGETV1(c *http_api.Client, endpoint string, v interface{}) error {
 func (q *verifTopicQuery) serveHTTP(rw http.ResponseWriter, req *http.Request) {
 	q.asked++
 	q.publishFirst(req.URL.Query().Get("topic"))
+	time.Sleep(verifSlowLookup) // the lookupd is not instantaneous
 	if q.fail == 1 {
 		rw.WriteHeader(500)
 		rw.Write([]byte(`{"message":"INTERNAL_ERROR"}`))
@@ -99,16 +127,45 @@ func (q *verifTopicQuery) serveHTTP(rw http.ResponseWriter, req *http.Request) {
 
 func VerifC16_GetTopicPrecreatesChannels() { verifrt.Atomic(verifC16GetTopic) }
 
+// verifDropConn: a connection the other side has dropped. kind 1: reset (RST) - every write and
+// read fails; kind 2: the lookupd hung up (FIN) - writes are still swallowed, reads give EOF.
+type verifDropConn struct {
+	kind   int
+	closed int
+}
+
+func (c *verifDropConn) Read(p []byte) (int, error) {
+	if c.kind == 1 {
+		return 0, errVerifReset
+	}
+	return 0, io.EOF
+}
+func (c *verifDropConn) Write(p []byte) (int, error) {
+	if c.kind == 1 {
+		return 0, errVerifReset
+	}
+	return len(p), nil
+}
+func (c *verifDropConn) Close() error                       { c.closed++; return nil }
+func (c *verifDropConn) LocalAddr() net.Addr                { return verifAddr{} }
+func (c *verifDropConn) RemoteAddr() net.Addr               { return verifAddr{} }
+func (c *verifDropConn) SetDeadline(t time.Time) error      { return nil }
+func (c *verifDropConn) SetReadDeadline(t time.Time) error  { return nil }
+func (c *verifDropConn) SetWriteDeadline(t time.Time) error { return nil }
+
 // what one run of the scenario shows
 type verifTQObs struct {
 	panicked   bool
+	dropSeen   bool // (dropped != 0) the failed PING left the peer disconnected with its connection closed
 	asked      int
 	firstMsg   bool
 	known      []string // non-ephemeral names a reachable lookupd knew
 	exists     []bool
 	depth      []int64
+	own        bool
+	ownDepth   int64 // depth of the bystander's own channel (-1: it does not exist)
 	topicDepth int64
-	lateDepth  int64 // depth of a channel created afterwards (only when nothing was known)
+	lateDepth  int64 // depth of a channel created afterwards (only when the topic has no channel)
 	topicAfter int64
 	sameTopic  bool
 	askedAgain bool
@@ -118,7 +175,7 @@ type verifTQObs struct {
 // scenario: natively the pump goroutine races with GetTopic, and a counterexample found under
 // the executor's schedule needs the same interleaving to show up.
 func (o *verifTQObs) ok() bool {
-	if o.panicked || o.asked < 1 || !o.firstMsg || !o.sameTopic || o.askedAgain {
+	if o.panicked || !o.dropSeen || o.asked < 1 || !o.firstMsg || !o.sameTopic || o.askedAgain {
 		return false
 	}
 	for i := range o.known {
@@ -126,17 +183,20 @@ func (o *verifTQObs) ok() bool {
 			return false
 		}
 	}
-	if len(o.known) == 0 {
+	if o.own && o.ownDepth != 1 {
+		return false
+	}
+	if len(o.known) == 0 && !o.own {
 		return o.topicDepth == 1 && o.lateDepth == 1 && o.topicAfter == 0
 	}
 	return o.topicDepth == 0
 }
 
-func verifC16GetTopicRun(mask, order, fail int) *verifTQObs {
+func verifC16GetTopicRun(mask, order, fail int, own bool, dropped int) *verifTQObs {
 	o := verifOpts()
 	o.NSQLookupdTCPAddresses = []string{"lookupd0:4160"}
 	n := verifShellNSQD(o)
-	q := &verifTopicQuery{n: n, fail: fail}
+	q := &verifTopicQuery{n: n, fail: fail, own: own}
 	verifTQ = q
 	pool := []string{"c0", "e#ephemeral", "c1"}
 	for i, nm := range pool {
@@ -175,7 +235,22 @@ func verifC16GetTopicRun(mask, order, fail int) *verifTQObs {
 	}
 	n.lookupPeers.Store(peers)
 
-	obs := &verifTQObs{}
+	obs := &verifTQObs{own: own, dropSeen: true}
+	if dropped != 0 {
+		// the established connection to lookupd0 was dropped; nsqd's heartbeat PING runs into it
+		// (the REAL lookupPeer.Command: it fails and closes the peer; the reconnect is left to the
+		// next command, which has not come yet when the topic is created)
+		lp := peers[0]
+		dc := &verifDropConn{kind: dropped}
+		lp.logf, lp.maxBodySize, lp.conn, lp.state = n.logf, 100, dc, stateConnected
+		lp.connectCallback = func(*lookupPeer) {}
+		var err error
+		obs.panicked = verifrt.Panics(func() { _, err = lp.Command(nsq.Ping()) })
+		if obs.panicked {
+			return obs
+		}
+		obs.dropSeen = err != nil && lp.state == stateDisconnected && dc.closed > 0
+	}
 	var t *Topic
 	obs.panicked = verifrt.Panics(func() { t = n.GetTopic("t0") })
 	if obs.panicked || t == nil {
@@ -197,8 +272,12 @@ func verifC16GetTopicRun(mask, order, fail int) *verifTQObs {
 		}
 		obs.depth = append(obs.depth, d)
 	}
+	obs.ownDepth = -1
+	if c, err := t.GetExistingChannel("own"); err == nil && c != nil {
+		obs.ownDepth = c.Depth()
+	}
 	obs.topicDepth = t.Depth()
-	if len(obs.known) == 0 {
+	if len(obs.known) == 0 && !own {
 		c := t.GetChannel("late")
 		verifrt.Rest()
 		obs.lateDepth, obs.topicAfter = c.Depth(), t.Depth()
@@ -209,19 +288,33 @@ func verifC16GetTopicRun(mask, order, fail int) *verifTQObs {
 }
 
 func verifC16GetTopic() {
+	verifrt.FreeRun() // (native replay: see the header)
 	verifrt.StubNative("(*github.com/nsqio/nsq/nsqd.NSQD).Notify", verifNotifyNop)
 	verifrt.Stub("(*github.com/nsqio/nsq/internal/http_api.Client).GETV1", verifTopicGETV1)
+	if verifrt.Symbolic() {
+		verifrt.InitPackage("github.com/nsqio/go-nsq")
+	}
+	own := verifrt.Choice("bystander", 2) == 0 // 0: creates its own channel and publishes, 1: only publishes
 	mask := verifrt.Choice("known", 8)
 	order := verifrt.Choice("order", 2)
 	fail := verifrt.Choice("lookupdFails", 3)
-	obs := verifC16GetTopicRun(mask, order, fail)
-	for i := 0; !verifrt.Symbolic() && obs.ok() && i < 40; i++ {
-		obs = verifC16GetTopicRun(mask, order, fail)
+	// the state of nsqd's TCP connection to lookupd0: 0 established, 1 / 2 dropped and noticed
+	// (reset / hung up), not yet re-established
+	dropped := verifrt.Choice("connection", 3)
+	// (a dropped connection matters where lookupd0's answer does: both lookupds answer; the order
+	// of the names is immaterial to it)
+	verifrt.Assume(dropped == 0 || (fail == 0 && order == 0))
+	obs := verifC16GetTopicRun(mask, order, fail, own, dropped)
+	// natively the outcome can depend on the Go scheduler (two pre-created channels: the pump may
+	// or may not run between them): repeat a passing run a few times
+	for i := 0; !verifrt.Symbolic() && obs.ok() && i < 6; i++ {
+		obs = verifC16GetTopicRun(mask, order, fail, own, dropped)
 	}
 	verifrt.Assert(!obs.panicked, "lookupd-answer-never-panics-nsqd")
 	if obs.panicked {
 		return
 	}
+	verifrt.Assert(obs.dropSeen, "failed-ping-leaves-peer-disconnected-and-closed")
 	verifrt.Assert(obs.asked >= 1 && obs.firstMsg, "new-topic-asks-its-lookupds")
 	for i := range obs.known {
 		verifrt.Assert(obs.exists[i], "known-channel-exists-on-the-new-topic")
@@ -229,8 +322,11 @@ func verifC16GetTopic() {
 			verifrt.Assert(obs.depth[i] == 1, "known-channel-receives-the-very-first-message")
 		}
 	}
+	if own {
+		verifrt.Assert(obs.ownDepth == 1, "channel-created-before-the-publish-receives-the-message")
+	}
 	known := len(obs.known)
-	if known == 0 {
+	if known == 0 && !own {
 		// nothing to pre-create (or the lookupds failed): the topic must be running all the same
 		verifrt.Assert(obs.topicDepth == 1, "first-message-kept-until-a-channel-exists")
 		verifrt.Assert(obs.lateDepth == 1 && obs.topicAfter == 0, "topic-started-despite-lookupd-failure")
@@ -238,9 +334,16 @@ func verifC16GetTopic() {
 		verifrt.Reach("lookupd-knows-nothing", fail == 0 && mask == 0)
 	} else {
 		verifrt.Assert(obs.topicDepth == 0, "first-message-left-the-topic-queue")
-		verifrt.Reach("a-two-channels-precreated", known == 2 && fail == 0)
+	}
+	if known > 0 {
+		verifrt.Reach("a-two-channels-precreated", known == 2 && fail == 0 && !own && dropped == 0)
 		verifrt.Reach("partial-answer-precreated", fail == 2)
 		verifrt.Reach("ephemeral-skipped-or-not", mask&2 != 0)
+		verifrt.Reach("bystander-channel-and-precreated-channels-all-hold-the-first-message", own && known == 2)
+		verifrt.Reach("precreated-although-the-lookupd-connection-was-reset", dropped == 1)
+		verifrt.Reach("precreated-although-the-lookupd-had-hung-up", dropped == 2 && own)
+	} else if own {
+		verifrt.Reach("lookupd-failed-bystander-channel-still-served", fail == 1)
 	}
 	// a second GetTopic for the same name does not ask again and returns the same topic
 	verifrt.Assert(obs.sameTopic && !obs.askedAgain, "existing-topic-is-returned-without-a-query")
